@@ -92,7 +92,7 @@ def generate(job):
             s = gen_struct(rs)
         spec["struct"] = s
         for _ in range(rs.randint(3, 8)):
-            k = rs.choice(["split_merge", "split_merge", "batch_call", "batch_sum", "mask", "index", "replace", "strip", "merge_two"])
+            k = rs.choice(["split_merge", "split_merge", "batch_call", "batch_call_scalar", "batch_sum", "mask", "index", "replace", "strip", "merge_two"])
             spec["ops"].append({"k": k, "b": batch(), "mseed": rs.randrange(1 << 30)})
     elif kind == "lazy":
         spec["heavy"] = rs.chance(0.6)
@@ -224,6 +224,14 @@ def run_struct(spec, log):
             got = np.array(D.batch_call(f, data, batch=b))
             if got.shape != whole.shape or not np.allclose(got, whole, rtol=1e-12, atol=1e-12):
                 log.fail("batchwise-equals-whole", "batch_call|batchwise-equals-whole", "batch_call(f, batch=%d) differs from f(whole sample) (shapes %s vs %s)" % (b, got.shape, whole.shape), step=i)
+                raise Failure()
+            compared += 1
+        elif k == "batch_call_scalar":
+            # a function returning a plain number (a constant cut / efficiency): one value per event
+            c = 0.5 + (op["mseed"] % 7)
+            got = np.array(D.batch_call(lambda x: float(c), data, batch=b))
+            if got.shape != (N,) or not np.all(got == c):
+                log.fail("batchwise-equals-whole", "batch_call|scalar-function", "batch_call of a constant function over N=%d events in batches of %d returned shape %s" % (N, b, got.shape), step=i)
                 raise Failure()
             compared += 1
         elif k == "batch_sum":
